@@ -5,7 +5,7 @@
 (* examples with scripted generator answers; index arithmetic in narrow    *)
 (* integer types, buffer reuse and the like only show above 2^8 / 2^16     *)
 (* examples.  One record per real execution with a REAL numpy generator:   *)
-(*   [id, form, n, b, size, epochs]                                        *)
+(*   [id, form, n, b, size, drop, epochs]                                  *)
 (*   form   how the shuffled dataset was built (see harness/check_random)  *)
 (*   n      number of source examples 0..n-1, b batch size (0: none)       *)
 (*   size   number of examples an epoch must deliver (n, reps*n, or the    *)
@@ -31,7 +31,10 @@ Epoch(rec, out) ==
      \* `size` draws, every value at most `reps` times: with size = reps * n
      \* that is exactly `reps` times each
      ELSE IF rec.form = "choice" /\ Cardinality(vals) # rec.size THEN "example-sampled-twice"
-     ELSE IF rec.form # "choice" /\ Cardinality(vals) # rec.n THEN "example-missing-or-duplicated"
+     \* rec.drop: examples whose evaluation raises an exception that a catch()
+     \* above the shuffle drops - every epoch holds exactly the others
+     ELSE IF rec.form # "choice" /\ vals # (0..(rec.n - 1)) \ {rec.drop[j] : j \in 1..Len(rec.drop)}
+          THEN "example-missing-or-duplicated"
      ELSE IF reps > 1 /\ \E x \in vals : Cardinality({j \in 1..Len(out) : out[j] = x}) # reps
           THEN "example-not-exactly-once-per-repetition"
      ELSE ""
